@@ -209,6 +209,35 @@ Proof.
 Qed.
 Print Assumptions C04_wire_binding.
 
+(** * BOLT-3 trimming.  [bolt3_tx] is the commitment transaction of a content per BOLT-3: HTLCs
+      below the dust limit plus the fee of their second-stage transaction (663 / 703 weight units
+      at the commitment's fee rate; none on zero-fee-anchor channels) have no output.  LDK's
+      builder, as the signer drives it, emits every HTLC it is given; so the signed transaction is
+      the BOLT-3 one because - and only because - validation refuses a content with a trimmed
+      HTLC.  Stated with that as the premise on [accept], and discharged for the validator model
+      of C05 in [C04_validated_contents_untrimmed]. *)
+Theorem C04_bolt3_trimming :
+  forall (sha rip : bytes -> bytes) (s : setup) (k : ckeys)
+         (SK SIG : Type) (sign : SK -> bytes -> SIG) (funding_key htlc_key : SK) (value_ok : bool)
+         (accept : content -> bool),
+    (forall c, accept c = true -> no_trimmed s c) ->
+    forall (c : content) (sig : SIG) (hs : list SIG),
+      sign_phase2 sha rip s k SK SIG sign funding_key htlc_key value_ok accept c = Ok (sig, hs) ->
+      no_trimmed s c
+      /\ bolt3_tx sha rip s k c = canon_tx sha rip s k c
+      /\ sig = sign funding_key (commit_sighash sha s (bolt3_tx sha rip s k c))
+      /\ exists hts, bolt3_htlc_txs sha rip s k c = Some hts
+                     /\ hs = map (fun x => sign htlc_key (htlc_sighash sha s x)) hts.
+Proof.
+  intros sha rip s k SK SIG sign fk hk vo acc Hacc c sig hs H.
+  pose proof (phase2_sig _ _ _ _ _ _ _ _ _ _ _ _ _ _ H) as [_ [Ha [E [hts [Eh Ehs]]]]].
+  assert (Hn : no_trimmed s c) by (apply no_trimmed_normalize; apply Hacc; exact Ha).
+  destruct (bolt3_untrimmed sha rip s k c Hn) as [B1 [_ B3]].
+  split; [exact Hn|]. split; [exact B1|]. rewrite B1. split; [exact E|].
+  exists hts. rewrite B3. split; assumption.
+Qed.
+Print Assumptions C04_bolt3_trimming.
+
 (** * Non-vacuity: a zero-fee-anchors commitment with three offered HTLCs (two of them identical)
       and no to_remote output, taken from a run of the harness (keys derived there with
       libsecp256k1).  Every premise of [C04_entry_points_agree_sha256] holds, phase 2 signs the
@@ -346,3 +375,26 @@ Proof.
   change (2 ^ 31) with 2147483648. Lia.lia.
 Qed.
 Print Assumptions C04_validated_contents_bounded.
+
+(** a content the validator of C05 accepts (non-permissive filter) has no trimmed HTLC: its
+    [dust_bound] conjunct is the negation of [trimmed], HTLC by HTLC *)
+Theorem C04_validated_contents_untrimmed :
+  forall en prof warn pol e (ps : CommitmentPolicy.setup) cs (s : setup) (c : content),
+    CommitmentPolicy.is_zero_fee_htlc (CommitmentPolicy.commitment_type ps) = is_zero_fee (s_ctype s) ->
+    (forall t, warn t = false) ->
+    CommitmentPolicy.max_feerate pol < U64.U32MAX ->
+    CommitmentPolicy.heights_fit prof pol cs ->
+    CommitmentPolicy.validate_entry en CommitmentPolicy.est_new prof warn pol e ps cs (c_num c) (policy_info c)
+    = CommitmentPolicy.Ok ->
+    no_trimmed s c.
+Proof.
+  intros en prof warn pol e ps cs s c Hz Hw Hm Hf H.
+  pose proof (C05.C05_accept_implies_bounds en prof warn pol e ps cs (c_num c) (policy_info c) Hw Hm Hf H)
+    as [_ [[_ [_ [Ho Hr]]] _]].
+  unfold CommitmentPolicy.htlc_limit, policy_info in Ho, Hr. cbn in Ho, Hr. rewrite Hz in Ho, Hr.
+  rewrite Forall_map in Ho, Hr. unfold no_trimmed, trimmed, htlc_trim_limit, htlc_weight, zf.
+  split; (eapply Forall_impl; [|first [exact Ho|exact Hr]]); intros h Hh; cbn in Hh;
+    apply N.ltb_ge; destruct (is_zero_fee (s_ctype s)); exact Hh.
+Qed.
+Print Assumptions C04_validated_contents_untrimmed.
+
